@@ -5,6 +5,7 @@ _CS = ("SEGMENTED_REQUEST", "AWAIT_CONFIRMATION", "SEGMENTED_CONFIRMATION")
 _CK = ("SegmentAck", "SimpleAck", "ComplexAck", "Error", "Reject", "Abort")
 CLIENT_CONF = [P + "ClientSSM.confirmation[%s, %s]" % (s, k) for s in _CS for k in _CK]
 CLIENT_TASK = [P + "ClientSSM.process_task[%s]" % s for s in _CS + ("COMPLETED", "ABORTED")]
+CLIENT_LEARNED = [P + "ClientSSM.process_task[AWAIT_CONFIRMATION, peer learned meanwhile]", P + "ClientSSM.confirmation[AWAIT_CONFIRMATION, SimpleAck, peer learned meanwhile]"]
 CLIENT_START = [P + "ClientSSM.indication[local %s]" % s for s in SEG]
 SERVER_START = [P + "ServerSSM.indication[IDLE, ConfirmedRequest, local %s%s]" % (s, c) for s in SEG for c in ("", ", reserved max-APDU code")]
 SERVER_IN = [P + "ServerSSM.indication[%s, %s]" % sk for sk in (("SEGMENTED_REQUEST", "ConfirmedRequest"), ("SEGMENTED_REQUEST", "Abort"),
